@@ -1,7 +1,7 @@
 SPEC = dict(
     props_file="C02",
     legs=[dict(family="hll", oracles=["prop_ok"], profiles=["debug", "release"], mask=[1, 2, 3, 4, 5, 6],
-               n_quick=90, n_thorough=900)],
+               n_quick=90, n_thorough=900, panic_is_violation=True)],
     level_text="Theorems (Props/C02.v, 19 statements + 3 non-vacuity examples) over an executable Gallina model of "
                "hll/{sketch,list,hash_set,container,array4,aux_map,array6,array8,estimator}.rs written function by function "
                "(list -> hash set -> growth -> array promotion, Array4 nibbles + cur_min + aux map + shift_to_bigger_cur_min, "
